@@ -656,4 +656,168 @@ theorem decodeSet_optTpl (addr : Bytes) (ts : List Template) (pad rest : Bytes)
       c + (4 + ((tbody Wire.Ipfix.encodeOptTemplate ts).length + pad.length)) := by omega
   rw [e]
 
+/-! ## Level 3: the whole message -/
+
+theorem applySet_acc (addr : Bytes) (recs : List Record) (c : Cache) (s : Wire.Ipfix.FlowSet) :
+    Wire.Ipfix.applySet addr (recs, c) s =
+      (recs ++ (Wire.Ipfix.applySet addr ([], c) s).1, (Wire.Ipfix.applySet addr ([], c) s).2) := by
+  cases s <;> simp [Wire.Ipfix.applySet]
+
+theorem tpl_items_le (ts : List Template) (h : ∀ t ∈ ts, Wire.Ipfix.wfTemplate t = true) :
+    ts.length ≤ ((ts.map Wire.Ipfix.encodeTemplate).flatten).length :=
+  tbody_length_ge Wire.Ipfix.encodeTemplate ts (fun t ht => encodeTemplate_big t (h t ht))
+
+theorem optTpl_items_le (ts : List Template) :
+    ts.length ≤ ((ts.map Wire.Ipfix.encodeOptTemplate).flatten).length :=
+  tbody_length_ge Wire.Ipfix.encodeOptTemplate ts (fun t _ => encodeOptTemplate_big t)
+
+/-- a well-formed set is longer than its header -/
+theorem wfSet_length (addr : Bytes) (cache : Cache) (s : Wire.Ipfix.FlowSet)
+    (hw : Wire.Ipfix.wfSet addr cache s = true) : 4 < (Wire.Ipfix.encodeFlowSet s).length := by
+  cases s with
+  | tpl ts pad =>
+    simp only [Wire.Ipfix.wfSet, Bool.and_eq_true, List.all_eq_true] at hw
+    obtain ⟨⟨hne, hts⟩, _⟩ := hw
+    have := tpl_items_le ts hts
+    cases ts with
+    | nil => simp at hne
+    | cons t ts =>
+      simp only [Wire.Ipfix.encodeFlowSet, Wire.Ipfix.encodeTemplateSet, encodeSet_length]
+      simp only [List.length_cons] at this
+      omega
+  | optTpl ts pad =>
+    simp only [Wire.Ipfix.wfSet, Bool.and_eq_true, List.all_eq_true] at hw
+    obtain ⟨⟨hne, hts⟩, _⟩ := hw
+    have := optTpl_items_le ts
+    cases ts with
+    | nil => simp at hne
+    | cons t ts =>
+      simp only [Wire.Ipfix.encodeFlowSet, Wire.Ipfix.encodeOptTemplateSet, encodeSet_length]
+      simp only [List.length_cons] at this
+      omega
+  | data t records pad =>
+    simp only [Wire.Ipfix.wfSet, Bool.and_eq_true, decide_eq_true_eq, List.all_eq_true] at hw
+    obtain ⟨⟨⟨_, hne⟩, hrec⟩, _⟩ := hw
+    have := body_length_ge t records hrec
+    cases records with
+    | nil => simp at hne
+    | cons x xs =>
+      simp only [Wire.Ipfix.encodeFlowSet, Wire.Ipfix.encodeDataSet, encodeSet_length]
+      simp only [body, List.length_cons] at this
+      omega
+
+/-- **C03 level 2 (any set)**: with more fuel than octets in the set, `decodeSet` consumes it entirely
+and has exactly the effect `applySet` specifies -/
+theorem decodeSet_flowSet (addr : Bytes) (s : Wire.Ipfix.FlowSet) (rest : Bytes) (c fuel : Nat)
+    (cache : Cache) (recs : List Record)
+    (hw : Wire.Ipfix.wfSet addr cache s = true) (hfuel : (Wire.Ipfix.encodeFlowSet s).length < fuel) :
+    decodeSet addr fuel ⟨⟨Wire.Ipfix.encodeFlowSet s ++ rest, c⟩, cache, recs⟩ =
+      (⟨⟨rest, c + (Wire.Ipfix.encodeFlowSet s).length⟩, (Wire.Ipfix.applySet addr (recs, cache) s).2,
+        (Wire.Ipfix.applySet addr (recs, cache) s).1⟩, none) := by
+  cases s with
+  | tpl ts pad =>
+    have hw' := hw
+    simp only [Wire.Ipfix.wfSet, Bool.and_eq_true, List.all_eq_true] at hw'
+    have := tpl_items_le ts hw'.1.2
+    simp only [Wire.Ipfix.encodeFlowSet, Wire.Ipfix.encodeTemplateSet, encodeSet_length] at hfuel
+    exact decodeSet_tpl addr ts pad rest c fuel cache recs hw (by omega)
+  | optTpl ts pad =>
+    have := optTpl_items_le ts
+    simp only [Wire.Ipfix.encodeFlowSet, Wire.Ipfix.encodeOptTemplateSet, encodeSet_length] at hfuel
+    exact decodeSet_optTpl addr ts pad rest c fuel cache recs hw (by omega)
+  | data t records pad =>
+    have hw' := hw
+    simp only [Wire.Ipfix.wfSet, Bool.and_eq_true, decide_eq_true_eq, List.all_eq_true] at hw'
+    obtain ⟨⟨_, hrec⟩, _⟩ := hw'
+    have := body_length_ge t records hrec
+    simp only [Wire.Ipfix.encodeFlowSet, Wire.Ipfix.encodeDataSet, encodeSet_length] at hfuel
+    simp only [body] at this
+    exact decodeSet_data addr t records pad rest c fuel cache recs hw (by omega)
+
+/-- octets of a list of sets -/
+def setsBytes (sets : List Wire.Ipfix.FlowSet) : Bytes := (sets.map Wire.Ipfix.encodeFlowSet).flatten
+
+theorem setsBytes_cons (s : Wire.Ipfix.FlowSet) (ss : List Wire.Ipfix.FlowSet) :
+    setsBytes (s :: ss) = Wire.Ipfix.encodeFlowSet s ++ setsBytes ss := by simp [setsBytes]
+
+/-- the set loop of `Decode` over a well-formed list of sets: every set is consumed, the result is the
+fold of `applySet`, no error of either kind -/
+theorem outer_roundtrip (addr : Bytes) : ∀ (sets : List Wire.Ipfix.FlowSet) (cache : Cache)
+    (recs : List Record) (c fuel : Nat) (errs : List Err),
+    Wire.Ipfix.wfSets addr cache sets = true → sets.length < fuel →
+    outer addr fuel ⟨⟨setsBytes sets, c⟩, cache, recs⟩ errs =
+      (⟨⟨[], c + (setsBytes sets).length⟩, (sets.foldl (Wire.Ipfix.applySet addr) (recs, cache)).2,
+        (sets.foldl (Wire.Ipfix.applySet addr) (recs, cache)).1⟩, none, errs) := by
+  intro sets
+  induction sets with
+  | nil =>
+    intro cache recs c fuel errs _ hf
+    cases fuel with
+    | zero => omega
+    | succ n => simp [outer, setsBytes]
+  | cons s ss ih =>
+    intro cache recs c fuel errs hw hf
+    cases fuel with
+    | zero => omega
+    | succ n =>
+      simp only [Wire.Ipfix.wfSets, Bool.and_eq_true] at hw
+      obtain ⟨hws, hwss⟩ := hw
+      have hlen := wfSet_length addr cache s hws
+      simp only [outer, setsBytes_cons]
+      rw [if_pos (by simp only [List.length_append]; omega)]
+      rw [decodeSet_flowSet addr s (setsBytes ss) c _ cache recs hws
+        (by simp only [List.length_append]; omega)]
+      simp only
+      rw [applySet_acc]
+      rw [ih _ _ _ n errs hwss (by simp only [List.length_cons] at hf; omega)]
+      simp only [List.foldl_cons, List.length_append, Nat.add_assoc]
+      rw [applySet_acc addr recs cache s]
+
+theorem readHeader_roundtrip (m : Wire.Ipfix.Msg) (rest : Bytes)
+    (h1 : Wire.Ipfix.msgLen m < 65536) (h2 : m.exportTime < 4294967296)
+    (h3 : m.seq < 4294967296) (h4 : m.domain < 4294967296) :
+    readHeader ⟨Wire.Ipfix.encodeHeader m ++ rest, 0⟩ = some (Wire.Ipfix.expectedHdr m, ⟨rest, 16⟩) := by
+  simp only [readHeader, Wire.Ipfix.encodeHeader, List.append_assoc]
+  rw [rU16_be16 10 (by decide)]
+  simp only
+  rw [rU16_be16 _ h1]
+  simp only
+  rw [rU32_be32 _ h2]
+  simp only
+  rw [rU32_be32 _ h3]
+  simp only
+  rw [rU32_be32 _ h4]
+  rfl
+
+theorem setsBytes_length_ge (addr : Bytes) : ∀ (sets : List Wire.Ipfix.FlowSet) (cache : Cache),
+    Wire.Ipfix.wfSets addr cache sets = true → sets.length ≤ (setsBytes sets).length := by
+  intro sets
+  induction sets with
+  | nil => intro _ _; simp
+  | cons s ss ih =>
+    intro cache hw
+    simp only [Wire.Ipfix.wfSets, Bool.and_eq_true] at hw
+    have := ih _ hw.2
+    have := wfSet_length addr cache s hw.1
+    simp only [setsBytes_cons, List.length_append, List.length_cons]
+    omega
+
+/-- **C03 level 3 (message)**: a well-formed IPFIX message is decoded to its header, exactly the
+expected records in order, no non-fatal error, and the cache updated with the message's templates -/
+theorem decode_roundtrip (c : Cache) (addr : Bytes) (m : Wire.Ipfix.Msg)
+    (hw : Wire.Ipfix.wfMsg addr c m = true) :
+    decode c addr (Wire.Ipfix.encodeMsg m) =
+      (.ok (Wire.Ipfix.expectedHdr m, (Wire.Ipfix.expected addr c m).1, []),
+       (Wire.Ipfix.expected addr c m).2) := by
+  simp only [Wire.Ipfix.wfMsg, Bool.and_eq_true, decide_eq_true_eq] at hw
+  obtain ⟨⟨⟨⟨h1, h2⟩, h3⟩, h4⟩, hsets⟩ := hw
+  have hb : Wire.Ipfix.setsBytes m = setsBytes m.sets := rfl
+  simp only [decode, Wire.Ipfix.encodeMsg, hb]
+  rw [readHeader_roundtrip m _ h1 h2 h3 h4]
+  simp only [Wire.Ipfix.expectedHdr, List.headD_cons, ne_eq, not_true_eq_false, if_false]
+  have hl := setsBytes_length_ge addr m.sets c hsets
+  rw [outer_roundtrip addr m.sets c [] 16 _ [] hsets
+    (by simp only [List.length_append]; omega)]
+  simp only [Wire.Ipfix.expected]
+
 end Vflow.Ipfix
